@@ -178,6 +178,9 @@ func worker(args []string) int {
 		}
 	}
 	runTimeout := 90 * time.Second
+	if id == "C13" {
+		runTimeout = 30 * time.Second // its DAGs are a few kilobytes; runs take milliseconds
+	}
 	if s := os.Getenv("VERIF_RUN_TIMEOUT_S"); s != "" {
 		if v, err := strconv.Atoi(s); err == nil && v > 0 {
 			runTimeout = time.Duration(v) * time.Second
@@ -552,6 +555,9 @@ func replay1(id, path string) int {
 	}
 	go func() {
 		limit := 180 * time.Second
+		if id == "C13" {
+			limit = 60 * time.Second
+		}
 		if s := os.Getenv("VERIF_RUN_TIMEOUT_S"); s != "" {
 			if v, err := strconv.Atoi(s); err == nil && v > 0 {
 				limit = 2 * time.Duration(v) * time.Second
